@@ -14,6 +14,7 @@ fn explore_raw(
         prefix: vec![],
         expect_n: vec![],
         cost: 0,
+        ycost: 0,
     }];
     let (mut execs, mut bad, mut hangs) = (0u64, 0u64, 0u64);
     let mut det_ok = true;
